@@ -145,3 +145,106 @@ def best_rigid_fit(P, Q):
     Rm = Vt.T.dot(D).dot(U.T)
     fit = (Rm.dot((P - pc).T)).T + qc
     return float(np.max(np.linalg.norm(fit - Q, axis=1)))
+
+
+# ------------------------------------------------------------------------------------------------ stress generators
+CELLS['rhombo'] = np.array([[20., 0, 0], [10., 17.3205, 0], [10., 5.7735, 16.3299]])          # 60 degree angles
+CELLS['rhombo-'] = np.array([[20., 0, 0], [-8., 18.0, 0], [-7., -6.0, 17.0]])                  # all tilts negative
+PATTERNS['long5'] = ('CNOFS', [[0., 0, 0], [1.4, 0.5, 0.1], [2.9, -0.4, 0.6], [4.5, 0.3, -0.5], [6.2, 0.0, 0.2]])
+PATTERNS['pair-y'] = ('CN', [[0., 0, 0], [0., 1.2, 0]])
+PATTERNS['collinear3-y'] = ('CNO', [[0., 0, 0], [0, 1.1, 0], [0, 2.5, 0]])
+PATTERNS['planar3-y'] = ('CNO', [[0., 0, 0], [0.1, 1.9, 0], [1.2, 0.5, 0]])
+PATTERNS['planar3-z'] = ('CNO', [[0., 0, 0], [0.0, 0.1, 1.9], [0, 1.2, 0.5]])
+
+
+def rot_to(u, v):
+    """Proper rotation taking unit vector u to unit vector v."""
+    u, v = np.asarray(u, float) / np.linalg.norm(u), np.asarray(v, float) / np.linalg.norm(v)
+    c = np.cross(u, v)
+    s, d = np.linalg.norm(c), float(np.dot(u, v))
+    if s < 1e-12:
+        if d > 0:
+            return R.identity()
+        w = np.cross(u, [1.0, 0, 0])
+        if np.linalg.norm(w) < 1e-6:
+            w = np.cross(u, [0, 1.0, 0])
+        return R.from_rotvec(np.pi * w / np.linalg.norm(w))
+    return R.from_rotvec(c / s * np.arctan2(s, d))
+
+
+def build_through_faces(cellname, patname, rnd, depth=0.05, decoys=2, spin=True, anchor=0):
+    """One copy through each of the six cell faces: the pattern's longest axis points along the outward face normal, its first axis atom sits
+    `depth` inside the face, so the copy sticks out by (almost) its full length."""
+    from mofun import Atoms
+    cell = CELLS[cellname]
+    els, coords = PATTERNS[patname]
+    coords = np.array(coords, dtype=float)
+    n = len(coords)
+    # the anchored atom stays just inside the face (atom 0 is the atom every search starts from); the body points outwards
+    i0 = anchor % n
+    dmax, i1 = max((np.linalg.norm(coords[i0] - coords[b]), b) for b in range(n))
+    axis = (coords[i1] - coords[i0]) / max(dmax, 1e-9)
+    dmax = max(np.linalg.norm(coords[a] - coords[b]) for a in range(n) for b in range(n))
+    A, B, C = cell
+    faces = []
+    uv = [(0.25, 0.25), (0.75, 0.7), (0.3, 0.72), (0.7, 0.3), (0.5, 0.5), (0.2, 0.55)]
+    for f, (o, e1, e2, third) in enumerate([(A * 0, B, C, A), (A, B, C, A), (B * 0, A, C, B), (B, A, C, B), (C * 0, A, B, C), (C, A, B, C)]):
+        nrm = np.cross(e1, e2)
+        nrm = nrm / np.linalg.norm(nrm)
+        if np.dot(nrm, third) < 0:
+            nrm = -nrm
+        outward = nrm if f % 2 == 1 else -nrm
+        faces.append((o, e1, e2, outward))
+    elements, positions, planted, poses = [], [], [], []
+    for f, (o, e1, e2, outward) in enumerate(faces):
+        u, v = uv[f]
+        anchor = o + u * e1 + v * e2 - depth * outward            # just inside
+        rot = rot_to(axis, outward)
+        if spin:
+            rot = R.from_rotvec(rnd.uniform(0, 2 * np.pi) * outward) * rot
+        pts = rot.apply(coords - coords[i0]) + anchor
+        idxs = []
+        for e, p in zip(els, pts):
+            idxs.append(len(elements))
+            elements.append(e)
+            positions.append(wrap(cell, p))
+        planted.append(tuple(idxs))
+        centre = pts.mean(axis=0)
+        poses.append((rot, centre))
+    tries = 0
+    while decoys > 0 and tries < 500:
+        tries += 1
+        p = np.array([rnd.random(), rnd.random(), rnd.random()]).dot(cell)
+        if all(min_image_dist(cell, p, q) > dmax + 3.0 for q in positions):
+            elements.append(rnd.choice(list(els)))
+            positions.append(p)
+            decoys -= 1
+    with quiet():
+        s = Atoms(elements=elements, positions=np.array(positions), cell=cell)
+        pat = Atoms(elements=list(els), positions=coords)
+    return dict(structure=s, pattern=pat, planted=planted, poses=poses, cell=cell, diam=dmax, cellname=cellname, patname=patname)
+
+
+def build_axis_poses(cellname, patname, rnd, which):
+    """Copies in axis-aligned poses (a third of the 24 proper axis rotations per structure), incl. exactly antiparallel ones."""
+    from mofun import Atoms
+    cell = CELLS[cellname]
+    els, coords = PATTERNS[patname]
+    coords = np.array(coords, dtype=float)
+    rots = AXIS_ROTS[which::3]
+    grid = [(i / 3.0 + 0.1, j / 3.0 + 0.12, k / 3.0 + 0.08) for i in range(3) for j in range(3) for k in range(3)]
+    elements, positions, planted, poses = [], [], [], []
+    for ci, rot in enumerate(rots):
+        centre = np.array(grid[ci]).dot(cell)
+        pts = rot.apply(coords - coords.mean(axis=0)) + centre
+        idxs = []
+        for e, p in zip(els, pts):
+            idxs.append(len(elements))
+            elements.append(e)
+            positions.append(wrap(cell, p))
+        planted.append(tuple(idxs))
+        poses.append((rot, centre))
+    with quiet():
+        s = Atoms(elements=elements, positions=np.array(positions), cell=cell)
+        pat = Atoms(elements=list(els), positions=coords)
+    return dict(structure=s, pattern=pat, planted=planted, poses=poses, cell=cell, cellname=cellname, patname=patname)
